@@ -6,7 +6,9 @@ from hypothesis import strategies as st
 from . import rx
 
 LIT_CHARS = ["a", "b", "c", "A", "B", "_", " ", "-", "1", "é", "日", ".", "*", "(", ")", "x", "é"]
-LINE_CHARS = ["a", "b", "c", "A", "B", "C", "_", " ", "-", "1", "2", "é", "É", "日", "本", ".", "*", "(", ")", "x", "\t", "ل"]
+LINE_CHARS = ["a", "b", "c", "A", "B", "C", "_", " ", "-", "1", "2", "é", "É", "日", "本", ".", "*", "(", ")", "x", "\t", "ل",
+              # code points that differ from ASCII letters / digits only in high bits (a decoder that drops a bit makes them collide)
+              "б", "а", "с", "š", "ł", "\u0461", "\u0841", "\U00010061"]
 CLASSNAMES = ["alnum", "alpha", "blank", "digit", "lower", "print", "punct", "space", "upper", "word", "xdigit"]
 
 
